@@ -20,7 +20,7 @@ def wave_factor(a, b):
     return WAVE_M[a.lower()] / WAVE_M[b.lower()]
 
 
-def flux_to_wlam_si(flux, unit, wave_m):
+def flux_to_wlam_si(flux, unit, wave_m, hc=None):
     """Convert a flux given per metre of wavelength in `unit` to W m^-2 m^-1."""
     unit = unit.lower()
     if unit == 'wlam':
@@ -28,7 +28,7 @@ def flux_to_wlam_si(flux, unit, wave_m):
     if unit == 'flam':               # erg s^-1 cm^-2  ->  W m^-2 : 1e-7 J/erg * 1e4 cm^2/m^2
         return flux * 1e-7 * 1e4
     if unit == 'photlam':            # photons s^-1 m^-2 -> W m^-2
-        return flux * H * C / wave_m
+        return flux * (H * C if hc is None else hc) / wave_m
     raise ValueError(unit)
 
 
